@@ -4,7 +4,7 @@ import ast
 
 from ..flow import V, NONE, TRUE, FALSE, EMPTY, sym, State
 from ..recorder import RecorderDomain, RecorderPolicy, build_closure, build_method, _self_attr
-from ..loader import norm
+from ..loader import norm, walk_own
 
 RECORDER_SCOPE = ('playback.tape_recorder', 'playback.utils.is_iterable', 'playback.utils.pickle_copy',
                   'playback.recording', 'playback.recordings.memory.memory_recording', 'playback.exceptions')
@@ -92,6 +92,8 @@ class RecDom(RecorderDomain):
                     st.env[('F', 'self', r.outputs)] = V('obj', ('havoc', 'outputs-after-body'), EMPTY)
         if lab == 'iface:TapeCassette.abort_recording' and node.frame.func is self.roles.discard:
             st = st.bump(('n', 'discard-abort'))
+        if t.role in ('body', 'plugin'):
+            self.at_calls.append((node, t, st, state))
         if lab in ('iface:TapeCassette.save_recording', 'iface:TapeCassette.abort_recording',
                    'iface:TapeCassette.create_new_recording',
                    'iface:Recording.add_metadata', 'ctor:Playback') or lab.startswith('libobj:random.Random.random') or \
@@ -341,6 +343,113 @@ def interception_flag_clause(ctx, res, prop, clause_id, variants=('recording', '
                             '%s decorator leaves the in-interception flag %s (exit %s)' % (kind, k, exit_kind(n)),
                             'the %s decorator can be left (%s, %s valuation) with the thread-local in-interception flag still set: every later '
                             'interception on this thread is skipped' % (kind, exit_kind(n), variant), witness=d.path_to(n, s), exit=exit_kind(n)))
+
+
+def replay_body_context_clause(ctx, res, prop, clause_id):
+    """a body that runs during replay (run-original policy, output functions without a recorded result) runs *outside* the
+    interception context: interceptions nested in it are answered from the recording, not bypassed"""
+    from ..report import Finding
+    roles = ctx.roles
+    c = res.clause(clause_id, 'R-TYPESTATE', 'bodies executed during replay run outside the interception context', floor=1)
+    for kind in ('input', 'output'):
+        fac, deco, cl = roles.closures[kind]
+        d = run_closure(ctx, kind, 'playback')
+        c.evaluations += d.visited_pairs
+        bad = None
+        nb = 0
+        for node, t, st, st_in in d.at_calls:
+            if t.role != 'body':
+                continue
+            nb += 1
+            for k, v in st_in.env.items():
+                if k[0] == 'F' and k[2] == 'currently_in_interception' and v.kind != 'false':
+                    bad = bad or (node, st_in, v.kind)
+        if nb:
+            c.instance('%s decorator: %d replay-time body call states, flag false at each' % (kind, nb), cl.qualname, bad is None)
+        if bad:
+            node, st, k = bad
+            res.add(Finding(prop, clause_id, 'R-TYPESTATE', node.file, node.frame.func.qualname, node.line, ast.unparse(node.ast),
+                            'during replay the intercepted function is executed with the in-interception flag %s: every interception nested in it '
+                            'is bypassed, so its inputs come from the live system instead of the recording and an unrecorded nested input is not '
+                            'reported' % k, witness=d.path_to(node, st) if (node.id, st.key()) in d.pred else None))
+
+
+def extractor_runs_idle_clause(ctx, res, prop, clause_id):
+    """user code that runs after the operation finished (the post-operation metadata extractor) runs with no active recording:
+    what it calls is not part of the run and must not be captured into the recording"""
+    from ..report import Finding
+    roles = ctx.roles
+    c = res.clause(clause_id, 'R-TYPESTATE', 'the post-operation extractor runs after the recording was detached from the recorder', floor=1)
+    d = run_closure(ctx, 'operation', 'idle')
+    c.evaluations += d.visited_pairs
+    pm = roles.post_metadata
+    bad = None
+    nb = 0
+    body_labels = {t.label for n_, t in d.builder.call_sites if t.role == 'body'}
+    for node, t, st, st_in in d.at_calls:
+        if t.role != 'plugin' or not any(d.n(st_in, lab) for lab in body_labels):
+            continue            # only user code that runs after the operation body
+        nb += 1
+        a = st_in.env.get(('F', 'self', roles.active))
+        if a is None or d.is_none(a, st_in) is not True:
+            bad = bad or (node, st_in)
+    c.instance('%d states at plug-in calls of the metadata step: no active recording' % nb, pm.qualname, bad is None and nb > 0)
+    if bad:
+        node, st = bad
+        res.add(Finding(prop, clause_id, 'R-TYPESTATE', node.file, node.frame.func.qualname, node.line, ast.unparse(node.ast),
+                        'the post-operation extractor is called while the recording is still the recorder\'s active recording: intercepted '
+                        'calls it makes are captured as if the operation had made them (replay never runs the extractor, so unchanged code '
+                        'shows recorded-only entries)', witness=d.path_to(node, st) if (node.id, st.key()) in d.pred else None))
+
+
+def api_leaves_replay_state_clause(ctx, res, prop, clause_id):
+    """the public API a replayed operation may call (discard / force / enable / disable) does not touch the replay's own state:
+    the per-alias ordinals, the captured outputs and the recording being replayed"""
+    from ..report import Finding
+    roles = ctx.roles
+    c = res.clause(clause_id, 'R-DOM', 'during a replay the re-entrant public API leaves ordinals / captured outputs / replayed recording alone', floor=2)
+    for m in roles.reentrant:
+        d = run_method(ctx, m, 'playback')
+        c.evaluations += d.visited_pairs
+        init = d.initial_states()[0]
+        bad = None
+        for n, s in d.exits:
+            for f in (roles.counter, roles.outputs, roles.playback):
+                k = ('F', 'self', f)
+                if s.env.get(k) != init.env.get(k) and bad is None:
+                    bad = (n, s, f)
+        c.instance('%s called during a replay: replay state untouched on %d exits' % (m.qualname, len(d.exits)), m.qualname, bad is None and bool(d.exits))
+        if bad:
+            n, s, f = bad
+            res.add(Finding(prop, clause_id, 'R-DOM', m.file, m.qualname, m.node.lineno, 'replay state field %s' % f,
+                            '%s, called by replayed code (or by the recorder itself when a data handler fails), re-assigns `%s` although no recording '
+                            'is active: the ordinals of later output calls restart, so they are answered from / compared with the wrong '
+                            'recorded entries' % (m.qualname, f), witness=d.path_to(n, s), exit=exit_kind(n)))
+
+
+def options_forwarded_clause(ctx, res, prop, clause_id, kinds=('input', 'output')):
+    """every option of a public decorator reaches the shared implementation: a forgotten argument silently becomes the
+    implementation's default (sibling agreement between the instance and the static variant)"""
+    from ..report import Finding
+    roles = ctx.roles
+    c = res.clause(clause_id, 'R-SIBLING', 'public decorator variants forward every option to the shared implementation', floor=2)
+    for kind in kinds:
+        fac = roles.closures[kind][0]
+        for m in roles.cls.methods.values():
+            if m is fac or m.name.startswith('_'):
+                continue
+            calls = [n for n in walk_own(m.node) if isinstance(n, ast.Call) and _self_attr(n.func) == fac.name]
+            if not calls:
+                continue
+            call = calls[0]
+            passed = {x.id for a in list(call.args) + [k.value for k in call.keywords] for x in ast.walk(a) if isinstance(x, ast.Name)}
+            missing = [p for p in m.params if p != 'self' and p not in passed]
+            c.instance('%s -> %s: all %d options forwarded' % (m.qualname, fac.name, len(m.params) - 1), m.qualname, not missing)
+            c.evaluations += 1
+            if missing:
+                res.add(Finding(prop, clause_id, 'R-SIBLING', m.file, m.qualname, call.lineno, 'options %s of %s' % (missing, m.name),
+                                'the public decorator %s accepts %s but does not hand %s to %s: the option is silently ignored for this '
+                                'variant (the implementation falls back to its default)' % (m.name, missing, 'it' if len(missing) == 1 else 'them', fac.name)))
 
 
 def stateful_constructs(func):
